@@ -515,7 +515,7 @@ def build_archive(rnd, ents, dialect, prefix="", root_entry=False):
     out = b""
     if root_entry:
         out += T.header(name=(prefix or "./").encode(), mode=rnd.choice([0o755, 0o700, 0o1777]), uid=rnd.choice([0, 1000]),
-                        gid=rnd.choice([0, 50]), mtime=1234567, typeflag=b"5")
+                        gid=rnd.choice([0, 50]), mtime=rnd.choice([1234567, 2 ** 32 + 5, 2 ** 33 - 1, 2 ** 31]), typeflag=b"5")
     for name, kind, a in ents:
         d = dialect if dialect != "mixed" else rnd.choice(["ustar", "gnu", "pax"])
         full = (prefix + name).encode("latin-1")
@@ -705,6 +705,16 @@ def gen_case(rnd, workdir, idx, tier):
     """(archive bytes, opts, description) for the search oracle"""
     big = tier == "thorough" and rnd.random() < 0.3
     ents = gen_tree(rnd, big=big)
+    if rnd.random() < 0.3:
+        # a directory's own header after (some of) its contents: the directory exists implicitly first and takes
+        # its attributes (mode, owner, clamped mtime) from its header when that arrives
+        for name in [n for n, kind, a in ents if kind == "dir"]:
+            if rnd.random() < 0.6:
+                i = next(k for k, e in enumerate(ents) if e[0] == name)
+                below = [k for k, e in enumerate(ents) if e[0].startswith(name + "/")]
+                if below and max(below) > i:
+                    e = ents.pop(i)
+                    ents.insert(rnd.randint(min(below), max(below)), e)
     opts = {}
     k = rnd.random()
     prefix = ""
